@@ -9,6 +9,7 @@ R6.5  errors carry status and response (HTTPError.__init__, alias __init__ templ
 R6.6  the shared-core predicate holds for every layout [= R11.2]; R6.7 call-local memo keys in the loader cover the status code
 R6.9  the alias module regenerated for the union of all clients' codes imports ClientError and ServerError unconditionally          [= R11.4]
 R6.10 the registry of a core contained in the regenerated package (at any depth) survives the removal of that package              [= R11.5]
+R6.14 generated dispatch: no exact-status arm is written after a range-guarded arm (first match wins: the exact arm would be dead)          [= R5.19]
 R6.13 HttpxTransport.request sends once per call (no replay / retry site), so every answer it returns has passed the status guard      [= R4.21]
 R6.12 generated dispatch: an undeclared / range-declared 4xx or 5xx is classified (ClientError / ServerError) before the catch-all raises the base class
 R6.11 the bundled transport never switches httpx's redirect-following on (a 3xx with a Location header must reach the raise guard)
@@ -504,6 +505,10 @@ def _dispatch_rules(gen: Function, helpers: Dict[str, ast.AST], rep: Report, con
             if txt.startswith("case _"):
                 return ("case_wild", txt)
             if txt.startswith("case "):
+                # `case {pattern}:` where the pattern text is computed: if one of the strings it can be carries a guard, the arm may be a range arm
+                for h in t.holes:
+                    if any(" if " in v for v in _possible_strings(h)):
+                        return ("case_num_or_guard", txt)
                 return ("case_num", txt)
             if txt.startswith("raise "):
                 return ("raise", txt)
@@ -517,6 +522,27 @@ def _dispatch_rules(gen: Function, helpers: Dict[str, ast.AST], rep: Report, con
             return ("return", f"<{f.attr}>")
         return None
 
+    _CL = Locals(gen.node)
+
+    def _possible_strings(e: ast.AST, depth: int = 0) -> List[str]:
+        """string constants an expression can evaluate to: through single-step locals and the `return <constant>` statements of helpers of the module / class"""
+        if depth > 4:
+            return []
+        if isinstance(e, ast.Constant) and isinstance(e.value, str):
+            return [e.value]
+        if isinstance(e, ast.IfExp):
+            return _possible_strings(e.body, depth + 1) + _possible_strings(e.orelse, depth + 1)
+        if isinstance(e, ast.JoinedStr):
+            return ["".join(v.value if isinstance(v, ast.Constant) else "{}" for v in e.values)]
+        if isinstance(e, ast.Name):
+            return [x for _, v, _ in _CL.defs.get(e.id, []) if v is not None for x in _possible_strings(v, depth + 1)]
+        if isinstance(e, ast.Call):
+            nm = (dotted(e.func) or "").split(".")[-1]
+            hf = gen.module.functions.get(nm) or (gen.cls.methods.get(nm) if gen.cls is not None else None)
+            if hf is not None:
+                return [x for r_ in ast.walk(hf.node) if isinstance(r_, ast.Return) and r_.value is not None for x in _possible_strings(r_.value, depth + 1)]
+        return []
+
     closures: List[Tuple[int, Tuple]] = []
     _ev2 = Evaluator(lambda e: "str" if isinstance(e, ast.Attribute) and e.attr == "status_code" and isinstance(e.value, ast.Name) else None, helpers, consts)
 
@@ -527,6 +553,7 @@ def _dispatch_rules(gen: Function, helpers: Dict[str, ast.AST], rep: Report, con
         return any(any(isinstance(x, ast.Attribute) and x.attr == "status_code" for x in ast.walk(c)) and _ev2.codes_where(c, True) == set(range(200, 300)) for c in parts)
 
     guard_arms: List[Tuple[int, Tuple]] = []
+    shadowed: Set[int] = set()
     _DL = Locals(gen.node)
 
     def _implied(e: ast.AST, truth: bool) -> Set[Tuple[str, bool]]:
@@ -606,7 +633,13 @@ def _dispatch_rules(gen: Function, helpers: Dict[str, ast.AST], rep: Report, con
             kind = k[0]
             if kind == "case_guard":
                 arm, depth, has_raise, has_return = ("case_guard", k[1]), 0, False, False
-            elif kind in ("case_wild", "case_num"):
+                covered = covered | {"range-arm"}
+            elif kind in ("case_wild", "case_num", "case_num_or_guard"):
+                if kind != "case_wild" and "range-arm" in covered:
+                    shadowed.add(node.id)
+                if kind == "case_num_or_guard":
+                    covered = covered | {"range-arm"}
+                    kind = "case_num"
                 arm, depth, has_raise, has_return = kind, 0, False, False
             elif kind == "match":
                 depth = -1  # the indent after `match` is not an arm
@@ -686,10 +719,22 @@ def _dispatch_rules(gen: Function, helpers: Dict[str, ast.AST], rep: Report, con
                 rep.violation("R6.3", sub, f"{gen.fq}|non2xx-arm-returns|{g2}|raise={has_raise}|return={has_return or '-'}",
                               "a declared non-2xx status arm can return a value / lacks a raise", loc)
 
+    # R6.14 arm order: `match` takes the first arm that matches, so an arm for an exact status written after a range-guarded arm
+    # (`case _ if 200 <= status < 300:`) is dead code - the exact response (206 -> FileChunk, 404 -> NotFoundError) is answered by the range arm
+    sub14 = f"{sub0} exact-status arms precede range-guarded arms"
+    if shadowed:
+        nd0 = cfg.nodes[sorted(shadowed)[0]]
+        rep.violation("R6.14", sub14, f"{gen.fq}|exact-arm-after-range-arm",
+                      "on some generator path a `case <status>:` arm is written after a range-guarded arm: the exact arm can never match, the declared response of that status is "
+                      "decoded / raised as the range's response (wrong model, body lost; wrong error class)", gen.loc(nd0.ast))
+    else:
+        rep.ok("R6.14", sub14, "no generator path writes an exact-status arm once a range-guarded arm has been written", gen.loc())
+
     # R6.12 classified tail: where the wildcard arm raises (the base class), every 4xx / 5xx without an arm of its own was answered before by
     # `case _ if 400 <= status < 500: raise ClientError` / `... 500 <= status < 600: raise ServerError` on the same generator path
     for ln, covered in sorted(tails, key=lambda t: (t[0], sorted(t[1]))):
         sub = f"{sub0} statuses reaching the raising wildcard arm (closed at L{ln}; classified arms on this path: {sorted(covered) or 'none'})"
+        covered = covered - {"range-arm"}
         missing = [r for r in ("4xx", "5xx") if r not in covered]
         if missing:
             rep.violation("R6.12", sub, f"{gen.fq}|unclassified-tail|{'+'.join(missing)}",
